@@ -12,16 +12,17 @@ open GateModel
 let nlinks = 6
 let maxclones = 6
 
-let run_with (follow : bool) (line : string) : string =
+let run_with (follow : bool) (guard : bool) (line : string) : string =
   let ops = Stdlib.List.map words (split_on ';' line) in
   let cap = match ops with ("Q" :: k :: _) :: _ -> max 1 (int_of_string k) | _ -> 2 in
-  let cf = { cf_cap = n_of_int cap; cf_follow = follow } in
+  let cf = { cf_cap = n_of_int cap; cf_follow = follow; cf_guard = guard } in
   let qlen = int_of_n cmd_queue_len in
   let s = ref init in
   let act a = s := step cf !s a in
   let blocked = ref [] (* publishers inside update_data, oldest block first *) in
   let gone = Array.make nlinks false in
   let tgt_alive = Array.make nlinks false and slots = Array.make nlinks [] in
+  let held = ref (-1)          (* op `b`: the connect() future of this link is held by the harness and not polled *) in
   let root_handle = ref true   (* the harness still holds the root Gate object *) in
   let term_req = ref false     (* T / Z was issued *) in
   let drop_pending = ref false (* T while the root was still inside process(): the gate goes when process() returns *) in
@@ -62,11 +63,15 @@ let run_with (follow : bool) (line : string) : string =
   let root_drain () =
     while root_running () && (!s.rnote <> [] || !s.rootq <> []) && not (root_waits ()) do act ARoot done;
     if !drop_pending && !s.root_term && not !s.root_dropped then (act ARootDrop; drop_pending := false);
-    (* a connect() in flight ends in Gone when the gate goes away; a new slot of a direct link *)
+    (* a connect() in flight ends in Gone when the gate goes away; a new slot of a direct link; a
+       connect() that has its answer returns (its task is polled) unless the harness holds the future *)
     for l = 0 to nlinks - 1 do
       (match lstate l with
        | LPending -> if !s.root_dropped then gone.(l) <- true
        | LConn (x, _) -> if l mod 2 = 1 && not (Stdlib.List.mem x slots.(l)) then slots.(l) <- x :: slots.(l)
+       | LAnsw x ->
+           if l mod 2 = 1 && not (Stdlib.List.mem x slots.(l)) then slots.(l) <- x :: slots.(l);
+           if !held <> l then act (APick (n_of_int l))
        | LIdle -> ())
     done;
     pubs_settle () in
@@ -106,6 +111,21 @@ let run_with (follow : bool) (line : string) : string =
         match lstate l with
         | LConn _ -> "ok"
         | _ -> if gone.(l) then "gone" else "blk"
+      end
+    end in
+  (* an abandoned connect: the future is polled once (Subscribe queued) and dropped - before the gate
+     runs (early), or after it has run and answered (late). A connect() in flight (c:blk) is cancelled. *)
+  let abandon l late =
+    if conn l || closing () then "skip"
+    else if pending l then begin
+      if late then "skip" else (act (AAbandon (n_of_int l)); root_drain (); "cut")
+    end
+    else if stuck () then "skip" else if gone.(l) then "gone" else begin
+      if l mod 2 = 1 && not tgt_alive.(l) then (tgt_alive.(l) <- true; slots.(l) <- []);
+      if !s.root_dropped then (gone.(l) <- true; "gone") else begin
+        act (ASendSub (n_of_int l));
+        if late then (held := l; root_drain (); held := -1);
+        act (AAbandon (n_of_int l)); root_drain (); "ok"
       end
     end in
   let link_cmd l what =
@@ -166,6 +186,7 @@ let run_with (follow : bool) (line : string) : string =
     | "c" :: _ when k < nlinks -> emit ("c:" ^ connect k)
     | ("d" | "s" | "r" as w) :: _ when k < nlinks -> emit (w ^ ":" ^ link_cmd k w)
     | "t" :: _ when k < nlinks -> emit ("t:" ^ target_drop k)
+    | ("a" | "b" as w) :: _ when k < nlinks -> emit (w ^ ":" ^ abandon k (w = "b"))
     | "q" :: _ when k < nlinks -> emit ("q:" ^ query k)
     | "u" :: _ -> emit ("u:" ^ update k)
     | "M" :: _ -> emit (Printf.sprintf "M:%d/%d" (int_of_n !s.m_upd) (int_of_n !s.m_drop))
@@ -234,4 +255,4 @@ let run_with (follow : bool) (line : string) : string =
   let spec = Stdlib.List.map relax model in
   if spec = model then join " " model else join " " model ^ " ||| " ^ join " " spec
 
-let run_case = run_with false
+let run_case = run_with false true
